@@ -1,3 +1,4 @@
 //! Shared utilities for the correspondence harness.
 pub mod util;
 pub mod paygen;
+pub mod srvenv;
